@@ -1,6 +1,7 @@
 """C15 - no eviction livelock in a closed system."""
 import st_cluster
 import st_reclaimrules
+import st_reclaimsizes
 
 LEVEL = "model_checking"
 PREFIXES = ["C15_"]
@@ -18,10 +19,15 @@ def run(ctx):
                        "cluster state by TLC; non-trivial = at least one eviction happened")
     ctx.assumptions += ["rule level: ReclaimRules.tla is model-checked for 2 departments x 2 leaf queues, 3 GPUs, <= 2 jobs per leaf, "
                         "every fair-share vector the C09 contract allows (liveness on the complete state graph); its full initial "
-                        "clusters are the systematic scenario source for the real scheduler"]
+                        "clusters are the systematic scenario source for the real scheduler",
+                        "cycle level: ReclaimSizes.tla (allocate / reclaim / preempt in the real queue order, jobs of 1-3 GPUs, nominations forgotten at the "
+                        "end of the cycle) exhibits the known eviction cycle for the code as it is and is quiet when nominations are honoured (2 queues, "
+                        "4 jobs, every fair-share vector the contract allows); its initial clusters in which nothing pending fits are the second "
+                        "systematic scenario source"]
     st_reclaimrules.run_stage(ctx, PREFIXES, thorough=not ctx.quick)
+    st_reclaimsizes.run_stage(ctx, PREFIXES, thorough=not ctx.quick)
     n = 320 if ctx.quick else 5000
-    st_cluster.run_stage(ctx, PREFIXES, [("closed", n), ("flat", 1600 if ctx.quick else 20000), ("chains", 600 if ctx.quick else 10000)], nontrivial_fn=nontrivial)
+    st_cluster.run_stage(ctx, PREFIXES, [("closed", n), ("flat", 1200 if ctx.quick else 20000), ("chains", 600 if ctx.quick else 10000)], nontrivial_fn=nontrivial)
 
 
 def replay(ctx, obj):
